@@ -118,8 +118,22 @@ def main(tier, seed, replay=None):
                 observations.append(o)
                 seq_runs[label] = (s, vname, extra, r)
                 tr_runs.append((label, r["hdr"], r["events"]))
-    runlayer.cleanup(root)
     npairs, bad = rel.judge("UnionOfParts", EXCLUDE, observations)
+    if bad and not replay:
+        # a deviation is reported only if a second execution of the same sequence repeats it (same class key); the
+        # machine may be heavily loaded and a run that could not start must not count as a finding of the property
+        again = [o for o in observations if o["role"] == "ref"]
+        for b in bad:
+            s, vname, extra, r = seq_runs[b["alt"]]
+            r2 = run_seq(root, s, b["alt"], extra)
+            again.append(rel.obs("pool", "alt", b["alt"], r2["findings"] + [{"id": "<stderr>", "key": x} for x in r2["stray"]], r2["rc"], parts=list(s)))
+        _, bad2 = rel.judge("UnionOfParts", EXCLUDE, again)
+        keys2 = {(b2["alt"], classify(seq_runs[b2["alt"]][0], b2)) for b2 in bad2}
+        unrepeated = [b for b in bad if (b["alt"], classify(seq_runs[b["alt"]][0], b)) not in keys2]
+        for b in unrepeated:
+            print("note: deviation of %s not repeated by a second execution, not reported: %s" % (b["alt"], classify(seq_runs[b["alt"]][0], b)))
+        bad = [b for b in bad if b not in unrepeated]
+    runlayer.cleanup(root)
     # trace validation of a seeded sample (all of them in thorough would dominate the run time)
     rnd = random.Random(seed + 7)
     sample = tr_runs if len(tr_runs) <= 120 else tr_runs[:len(pool)] + rnd.sample(tr_runs[len(pool):], 110 if tier == "quick" else 600)
